@@ -272,6 +272,8 @@ def _insitu(ctx, mon, shard):
                 s = s + rng.choice([" \n", "\u00a0\n", "\t\n"]) + "second line"  # white space right before a line break
             if rng.random() < 0.15:
                 s = rng.choice(pools["marks"]) + s  # a label that starts with a combining accent
+            if rng.random() < 0.2:
+                s = s + rng.choice([" <ID>", " <TEXT>", " %s", " {}", " #1"]).replace("{}", "()")  # looks like a template slot
             texts.append(s)
         data = [{"time": float(10 * i + rng.randrange(0, 5)), "width": 30 + i, "text": t} for i, t in enumerate(texts)]
         opts = {"scale": LinearScale(), "direction": rng.choice(["up", "down", "left", "right"]),
